@@ -536,6 +536,9 @@ def __Solver_1(simu: "_Simu", problemType: "ProblemType") -> _types.FloatArray:
     x0 = x0[dofsUnknown]
 
     lb, ub = simu.Get_lb_ub(problemType)
+    if len(lb) == A.shape[0]:
+        # bounds are given for every dof, the reduced system holds the unknown ones
+        lb, ub = lb[dofsUnknown], ub[dofsUnknown]
 
     bi -= Aic @ xc
     xi = _Solve_Axb(
